@@ -24,6 +24,11 @@ CHECKS = {
    text="Rendered generator programs with random trivia (nested/multi-line/non-ASCII comments, CRLF, case flips) and concatenated fragments of the repository's example sources, each with 0-2 inserted/deleted/replaced characters from a list of hostile characters, are parsed in-process; whenever no diagnostic is reported the concatenated Display of the tokens must reproduce the text.",
    note="Case is compared after upper-casing both sides and CRLF after normalising both sides, the weakest comparison that still accounts for every character. Only the main file's tokens are printed (as the property states).",
    ref="§5 C05"),
+ "C06": dict(
+   technique="proptest over 9 project shapes run in sandboxed worker processes; crash/abort monitor + pass-state-digest cycle detector (hook) + output-or-diagnostic and span-validity predicates",
+   text="Generated projects (grammar programs with hostile trivia, character mutations, example-source fragments, extreme integers as directive/operator/option arguments, import graphs incl. cycles and missing files, mutually dependent segments, nested loops with edge-of-range branches, hostile names, nesting to depth 64) go through parse, codegen as `mos build`, merge/listing/symbols, format and codegen in the language server's analysis mode inside worker sub-processes. A panic, an abnormal worker exit, a repeated pass-state digest (deterministic proof of non-termination), 'neither output nor diagnostic' or a diagnostic span outside the project is a violation.",
+   note="A watchdog kill or reaching the pass bound without a digest repeat is reported as inconclusive, never as a violation; .loop/.align/bank-size arguments above 70000 and nesting deeper than 64 are excluded by construction (termination not decidable without a clock / unbounded recursion). Invalid UTF-8 file contents are only reachable through the CLI (covered by C04's CLI runs, not here).",
+   ref="§5 C06"),
 }
 
 NOT_YET = {
